@@ -578,13 +578,51 @@ func c04Unicode(c *Ctx, g *load.G) {
 		}
 		r.Check(len(bad) == 0, "C04-d", "A.pigeon.go:SingleCharUnicodeClass ⊆ unicode tables", "", "pigeon.go", "single-letter classes "+single+" all resolve", "single-letter classes without table: "+strings.Join(bad, ","))
 	}
-	// rangeTable consults exactly the three maps
-	src := c.Src()
-	used := map[string]bool{}
-	for _, m := range regexp.MustCompile(`unicode\.(Categories|Properties|Scripts|[A-Z][A-Za-z]*)\[`).FindAllStringSubmatch(src.RangeTable0, -1) {
-		used[m[1]] = true
+	// rangeTable consults the three maps, each unconditionally and for every name
+	rtf := load.FuncDecl(g.Pkg("builder"), "", "rangeTable")
+	if rtf == nil {
+		r.Fatal("builder.rangeTable not found")
+		return
 	}
-	r.Check(used["Categories"] && used["Properties"] && used["Scripts"], "C04-d", "T.rangeTable:lookups", "", "builder/static_code_range_table.go", "Categories, Properties and Scripts are consulted", fmt.Sprintf("rangeTable consults %v", used))
+	param := rtf.Type.Params.List[0].Names[0].Name
+	found := map[string]bool{}
+	var bad []string
+	ast.Inspect(rtf.Body, func(n ast.Node) bool {
+		is, ok := n.(*ast.IfStmt)
+		if !ok || is.Init == nil {
+			return true
+		}
+		as, ok := is.Init.(*ast.AssignStmt)
+		if !ok || len(as.Rhs) != 1 {
+			return true
+		}
+		ix, ok := as.Rhs[0].(*ast.IndexExpr)
+		if !ok || !strings.HasPrefix(nospace(ix.X), "unicode.") {
+			return true
+		}
+		m := strings.TrimPrefix(nospace(ix.X), "unicode.")
+		gs := guardsOf(rtf.Body, is.Pos())
+		retOK := len(is.Body.List) == 1
+		if retOK {
+			rs, isRet := is.Body.List[0].(*ast.ReturnStmt)
+			retOK = isRet && nospace(rs.Results[0]) == nospace(as.Lhs[0])
+		}
+		if nospace(ix.Index) != param || nospace(is.Cond) != nospace(as.Lhs[1]) || !retOK {
+			bad = append(bad, "lookup in unicode."+m+" is not `if rt, ok := unicode."+m+"["+param+"]; ok { return rt }`")
+		}
+		if len(gs) > 0 {
+			bad = append(bad, "lookup in unicode."+m+" only under ["+strings.Join(gs, ";")+"]: some accepted class names are never looked up there (a generated parser using them panics during package initialisation)")
+		}
+		found[m] = true
+		return true
+	})
+	for _, m := range []string{"Categories", "Properties", "Scripts"} {
+		if !found[m] {
+			bad = append(bad, "unicode."+m+" is not consulted")
+		}
+	}
+	sort.Strings(bad)
+	r.Check(len(bad) == 0, "C04-d", "T.rangeTable:lookups", "", "builder/static_code_range_table.go", "Categories, Properties and Scripts are each consulted unconditionally with the class name", strings.Join(bad, "; "))
 }
 
 // unicodeMissing returns the accepted Unicode class names that have no table in the toolchain (err != "" on machinery failure).
